@@ -296,11 +296,13 @@ func (s *SvcModel) QueryAnswer(name, nq, mode string) []byte {
 	if r == nil || r.Gone {
 		return ErrJSON("system.notFound", "Not found")
 	}
-	defer func() {
-		r.AnnM = cloneM(r.M)
-		r.AnnC = append([]string(nil), r.C...)
-		r.Dirty = false
-	}()
+	if mode != "empty" {
+		defer func() {
+			r.AnnM = cloneM(r.M)
+			r.AnnC = append([]string(nil), r.C...)
+			r.Dirty = false
+		}()
+	}
 	switch mode {
 	case "events":
 		var evs []string
@@ -392,3 +394,6 @@ func (s *SvcModel) DefaultAnswer(r *Req) []byte {
 	}
 	return []byte(`{"result":null}`)
 }
+
+// ParseQuery returns the query field of a request payload.
+func ParseQuery(p []byte) string { return parseReq(p).Query }
